@@ -1,6 +1,7 @@
 package rules
 
 import (
+	"bytes"
 	"encoding/binary"
 	"fmt"
 	"runtime"
@@ -100,6 +101,15 @@ func (c C13Case) rule() rule.Rule {
 	return &rule.SyscallRule{Type: rule.Type(c.TypeCode), List: c.List, Action: c.Action, Filters: c.Filters, Syscalls: c.Syscalls, Keys: c.Keys}
 }
 
+const c13FollowUpText = "-a always,exit -F arch=b64 -S open,close -F uid=root -k follow-up"
+
+func c13FollowUp() rule.Rule {
+	return &rule.SyscallRule{Type: rule.AppendSyscallRuleType, List: "exit", Action: "always", Syscalls: []string{"open", "close"}, Keys: []string{"follow-up"},
+		Filters: []rule.FilterSpec{{Type: rule.ValueFilterType, LHS: "arch", Comparator: "=", RHS: "b64"}, {Type: rule.ValueFilterType, LHS: "uid", Comparator: "=", RHS: "root"}}}
+}
+
+var c13FollowUpRef = func() []byte { b, _ := rule.Build(c13FollowUp()); return b }()
+
 // c13Oracle runs one input through the function under test.
 func c13Oracle(c C13Case) (passedFirstStage bool, err error) {
 	var inLen int
@@ -123,6 +133,14 @@ func c13Oracle(c C13Case) (passedFirstStage bool, err error) {
 		if limit := 1<<20 + 64*uint64(inLen) + 2080; after-before > limit {
 			if d := exactAlloc(func() { _, _ = rule.Build(r) }); d > limit {
 				return false, fmt.Errorf("Build allocated %d bytes for an input of %d bytes", d, inLen)
+			}
+		}
+		if berr != nil {
+			// a refused rule leaves nothing behind: a plain rule that needs the tables (syscall by name, account by
+			// name, a key) is built afterwards and must come out as it did when the process started
+			// (a Build that never returns is reported by the hang watchdog, with this case)
+			if b, _ := rule.Build(c13FollowUp()); !bytes.Equal(b, c13FollowUpRef) {
+				return false, fmt.Errorf("after this refused rule (%v) the plain rule %q is built as %x, at process start it was %x", berr, c13FollowUpText, b, c13FollowUpRef)
 			}
 		}
 		if berr == nil {
@@ -235,7 +253,9 @@ func js(t *rapid.T, label string) string {
 
 // scratchSpecialNames: the fifo and the socket of the scratch directory, by a name that is stable across processes
 // (replay files must not carry the random directory): $SCRATCH/fifo is expanded when the rule is built.
-func scratchSpecialNames() []string { return []string{"$SCRATCH/fifo", "$SCRATCH/sock", "$SCRATCH/link-to-dir"} }
+func scratchSpecialNames() []string {
+	return []string{"$SCRATCH/fifo", "$SCRATCH/sock", "$SCRATCH/link-to-dir"}
+}
 
 func genBuildCase(t *rapid.T) C13Case {
 	c := C13Case{Kind: "build"}
@@ -497,6 +517,20 @@ func TestC13ValueSweep(t *testing.T) {
 			}
 		}
 	}
+	// every architecture name (and every junk value) in front of syscalls given by name and by number
+	for _, arch := range append(append([]string{}, rulegen.ArchList...), junkStrings...) {
+		for _, sys := range [][]string{{"read"}, {"open", "close"}, {"1"}, {"no_such_syscall"}, {"all"}} {
+			for _, op := range []string{"=", "!="} {
+				c := C13Case{Kind: "build", TypeCode: int(rule.AppendSyscallRuleType), List: "exit", Action: "always", Syscalls: sys,
+					Filters: []rule.FilterSpec{{Type: rule.ValueFilterType, LHS: "arch", Comparator: op, RHS: arch}}}
+				hC13.Eval()
+				if err := hx.Guard(propC13, c); err != nil {
+					hC13.Fail(t, "TestC13", c, "%v", err)
+				}
+			}
+		}
+	}
+	hC13.Class("arch-x-syscall-sweep")
 	// the same values as the right-hand side of a flag line
 	for _, field := range []string{"msgtype", "exit", "arch", "uid", "perm", "filetype", "key", "a0"} {
 		for _, v := range values {
